@@ -599,6 +599,8 @@ static struct stim STM[1024];
 static int nst;
 
 static int cfg_nopwait2, cfg_notimerfd, cfg_noeventfd2, cfg_noeventfd;
+static unsigned long long cfg_eventfd_emfile;	/* bit k-1 set: the k-th eventfd/eventfd2 call that reaches the kernel fails with EMFILE */
+static int eventfd_calls;
 
 static void h_timer(void *c);
 static void h_task(void *c);
@@ -864,6 +866,8 @@ long __wrap_syscall(long nr, long a, long b, long c, long d, long e, long f)
 	if (nr == __NR_eventfd2 || nr == __NR_eventfd) {
 		if (nr == __NR_eventfd2 && (cfg_noeventfd2 || cfg_noeventfd)) { errno = ENOSYS; return -1; }
 		if (nr == __NR_eventfd && cfg_noeventfd) { errno = ENOSYS; return -1; }
+		/* a transient failure (descriptor table full), as opposed to the call not existing */
+		if (eventfd_calls < 64 && (cfg_eventfd_emfile >> eventfd_calls++) & 1) { errno = EMFILE; return -1; }
 	}
 	if (nr == __NR_gettid)
 		return 1000 + me_;
@@ -1157,6 +1161,7 @@ int main(int argc, char **argv)
 				else if (!strcmp(c, "notimerfd")) cfg_notimerfd = ok = 1;
 				else if (!strcmp(c, "noeventfd2")) cfg_noeventfd2 = ok = 1;
 				else if (!strcmp(c, "noeventfd")) cfg_noeventfd = ok = 1;
+				else if (!strncmp(c, "eventfd-emfile=", 15)) { int k = atoi(c + 15); if (k >= 1 && k <= 64) cfg_eventfd_emfile |= 1ULL << (k - 1); ok = 1; }
 				else if (!strncmp(c, "seed=", 5)) { rng_state = 88172645463325252ULL ^ (strtoull(c + 5, NULL, 10) * 2654435761ULL); if (!rng_state) rng_state = 1; ok = 1; }
 				else if (!strncmp(c, "stay=", 5)) { stay_pct = atoi(c + 5); ok = 1; }
 				else if (!strncmp(c, "sched=", 6)) {
